@@ -1,0 +1,33 @@
+//go:build verif
+// +build verif
+
+package termincommittee
+
+import (
+	"github.com/orbs-network/lean-helix-go/services/interfaces"
+	"github.com/orbs-network/lean-helix-go/spec/types/go/primitives"
+)
+
+// Read-only accessors for the verification harness under /verif (build tag "verif" only).
+
+// VerifLeaderOf exposes the package-private leader function so that it can be tabulated.
+func VerifLeaderOf(view primitives.View, committeeMembers []interfaces.CommitteeMember) primitives.MemberId {
+	return calcLeaderOfViewAndCommittee(view, committeeMembers)
+}
+
+// VerifSnapshot is the term-internal state that no SPI exposes.
+type VerifSnapshot struct {
+	Prepared     bool
+	PreparedView primitives.View
+	Committed    bool
+	LastNV       primitives.View // latestViewThatProcessedVCMOrNVM
+}
+
+func (tic *TermInCommittee) VerifSnapshot() VerifSnapshot {
+	v, ok := tic.getPreparedLocally()
+	return VerifSnapshot{Prepared: ok, PreparedView: v, Committed: tic.committedBlock != nil, LastNV: tic.latestViewThatProcessedVCMOrNVM}
+}
+
+func (tic *TermInCommittee) VerifCommittee() []interfaces.CommitteeMember {
+	return tic.committeeMembers
+}
